@@ -107,10 +107,20 @@ def pgen_programs(tier, seed):
     for k in range(n):
         ast = seed * 100000 + k
         P = pgen.generate(ast, fuel=4 + k % 3, lin=(k % 6 == 5))
-        variants = [("unique", None), ("local", None), ("reuse", None), ("clash", None), ("reuse", ast + 7)]
-        for sch, order in variants:
-            out.append({"name": "pg/%d-%s%s" % (ast, sch, "-perm" if order else ""), "text": pgen.render(P, sch, seed=ast, order=order), "src": "pgen",
-                        "wide": True, "ast": ast, "scheme": sch})
+        variants = [("unique", None, "plain"), ("local", None, "plain"), ("reuse", None, "plain"), ("clash", None, "plain"), ("reuse", ast + 7, "plain")]
+        if k % 3 == 0:
+            variants += [("reuse", None, "ren"), ("local", ast + 9, "cross")]
+        for sch, order, ids in variants:
+            out.append({"name": "pg/%d-%s%s%s" % (ast, sch, "-perm" if order else "", "" if ids == "plain" else "-" + ids),
+                        "text": pgen.render(P, sch, seed=ast, order=order, ids=ids), "src": "pgen", "wide": True, "ast": ast, "scheme": sch, "ids": ids})
+        if k % 4 == 0:
+            # an ill-typed tree (one elimination removed) under every naming: the verdict must not depend on the spelling
+            Q = pgen.generate(ast, fuel=4 + k % 3, lin=(k % 6 == 5))
+            what = pgen.mutate(Q, ast)
+            if what:
+                for sch, order, ids in [("unique", None, "plain"), ("local", None, "plain"), ("reuse", None, "plain"), ("clash", ast + 3, "plain"), ("reuse", None, "cross")]:
+                    out.append({"name": "pgm/%d-%s%s" % (ast, sch, "" if ids == "plain" else "-" + ids), "text": pgen.render(Q, sch, seed=ast, order=order, ids=ids),
+                                "src": "pgen-mutant", "wide": True, "ast": -ast, "scheme": sch, "ids": ids, "mutation": what})
     return out
 
 
@@ -414,7 +424,7 @@ def _campaign(tier, seed, extra_progs):
         saxval["selftest"] = sax.selftest(runnable, obs, work)
         tm["sax_orders"] = time.time() - t1
         return {"tier": tier, "seed": seed,
-                "progs": [{k: p.get(k) for k in ("name", "src", "fe", "accepted", "closed", "runnable", "text", "ast", "scheme", "wide")} | {
+                "progs": [{k: p.get(k) for k in ("name", "src", "fe", "accepted", "closed", "runnable", "text", "ast", "scheme", "wide", "ids", "mutation")} | {
                     "cfree": contraction_free(p["dump"]) if p.get("dump") else None, "size": size.get(p["name"], 0)} for p in progs],
                 "runs": runs, "nonterminating": [p["name"] for p in progs if p["runnable"] and not p.get("terminates")], "exhaustive": exh, "small": [p["name"] for p in small], "validation": val, "expect": expect,
                 "matrix": [list(c) for c in cfgs], "timing": tm, "sax": saxexp, "sax_confluence": saxconf, "sax_orders": saxval}
